@@ -32,6 +32,7 @@ IndexExprs(s) ==
 IsBasic(e) == \A i \in 1..Len(e) : e[i].t # "list"
 Perms(n) == {p \in [1..n -> 1..n] : \A i, j \in 1..n : i # j => p[i] # p[j]}
 
+InjSeqs(k, n) == {q \in [1..k -> 0..(n - 1)] : \A i, j \in 1..k : i # j => q[i] # q[j]}
 JoinFns == {"concatenate", "stack", "hstack", "vstack", "dstack"}
 JoinAxes(f, nd) == IF f = "concatenate" THEN (0 - nd)..(nd - 1) ELSE IF f = "stack" THEN (0 - nd - 1)..nd ELSE {0}
 
@@ -39,6 +40,10 @@ Init == vec = [kind |-> "none"]
 Next == \/ vec.kind = "none" /\ \E s \in Shapes : vec' = [kind |-> "shape", shape |-> s]
         \/ vec.kind = "shape" /\ \E e \in IndexExprs(vec.shape) : vec' = [kind |-> "index", shape |-> vec.shape, items |-> e]
         \/ vec.kind = "shape" /\ \E p \in Perms(Len(vec.shape)) : vec' = [kind |-> "transpose", shape |-> vec.shape, perm |-> p]
+        \* moveaxis with sequences: every injective source / destination pair of every length
+        \/ vec.kind = "shape" /\ \E k \in 1..Len(vec.shape) :
+              \E src \in InjSeqs(k, Len(vec.shape)), dst \in InjSeqs(k, Len(vec.shape)) :
+                 vec' = [kind |-> "moveaxis", shape |-> vec.shape, source |-> src, destination |-> dst]
         \* joins: function x number of operands x axis x how the later operands relate to the first
         \* ("same": same names and terms; "twin": same exponent table and dtype, other names; "terms": same names,
         \* other terms; "number": a plain numeric array)
